@@ -436,7 +436,7 @@ func (g *gen) newPipeline(depth int, top bool) *GCallable {
 	preDone := false
 	for ci := 0; ci < ncalls; ci++ {
 		var callee *GCallable
-		if g.opts.Preflight && !preDone && g.rng.Intn(5) == 0 {
+		if g.opts.Preflight && !preDone && (g.rng.Intn(5) == 0 || (top && g.rng.Intn(2) == 0)) {
 			// a preflight call: inputs from literals / pipeline inputs only, no outputs
 			preDone = true
 			pre := g.newPreflightStage()
@@ -457,7 +457,8 @@ func (g *gen) newPipeline(depth int, top bool) *GCallable {
 		}
 		if g.rng.Intn(9) == 0 {
 			callee = g.newFlagsStage()
-		} else if depth < g.opts.MaxDepth && g.rng.Intn(3) == 0 {
+		} else if depth < g.opts.MaxDepth && (g.rng.Intn(3) == 0 || (preDone && g.rng.Intn(2) == 0)) {
+			// (after a preflight call: prefer nested pipelines, whose stages the preflight must also hold back)
 			callee = g.newPipeline(depth+1, false)
 		} else if len(g.stages) > 0 && g.rng.Intn(3) == 0 {
 			callee = g.stages[g.rng.Intn(len(g.stages))]
